@@ -806,6 +806,12 @@ def gen_udp():
     body = fn_body(rd, "read")
     # `_ = buf.recv_from(..)` discards the result; `r = buf.recv_from(..) => { r?; ..` (or a match) propagates it
     discards = bool(re.search(r"\b_\s*=\s*buf\s*\.\s*recv_from", body))
+    m_r = re.search(r"\b(\w+)\s*=\s*buf\s*\.\s*recv_from", body)
+    if m_r and m_r.group(1) != "_":
+        v = re.escape(m_r.group(1))
+        # the result is bound: it is handed on only if the arm returns the error (`r?`, `Err(e) => return Err(e)`, `return r.map(..)`)
+        hands_on = bool(re.search(v + r"\s*\?", body)) or bool(re.search(r"Err\s*\(\s*\w+\s*\)\s*=>\s*(?:return\s+)?Err", body)) or bool(re.search(r"return\s+" + v + r"\b", body))
+        discards = not hands_on
     quic = strip_rust(open(os.path.join(REPO, "src/common/quic.rs")).read())
     qt = fn_body(quic, "quic_frames_thread")
     by_sid = bool(re.search(r"let\s+sid\s*=\s*frame\s*\.\s*session_id\s*;", qt)) and bool(re.search(r"sessions\s*\.\s*get\s*\(\s*&sid\s*\)", qt))
@@ -836,6 +842,14 @@ def gen_udp():
     out += "Definition quic_frames_dispatched_by_session_id : bool := %s.\n" % B(by_sid)
     out += "Definition quic_fragment_ids_shared_by_all_writers : bool := %s.\n" % B(ids_shared)
     out += "Definition quic_one_reassembly_table_per_connection : bool := %s.\n" % B(one_table)
+    # the session socket of the reverse / tproxy listeners: bound before it is connected (udp_socket), and its reader ignores
+    # a datagram whose source is not the session's client
+    us = fn_body(udp, "udp_socket")
+    i_b, i_c = us.find("bind(fd"), us.find("connect(fd")
+    bound_first = 0 <= i_b < i_c
+    ignores = bool(re.search(r"source\s*!=\s*super\s*::\s*try_map_v4_addr\s*\(\s*self\s*\.\s*remote\s*\)\s*\{[^}]*continue\s*;", body, re.S)) and bool(re.search(r"\bloop\s*\{", body))
+    out += "Definition session_socket_bound_before_connected : bool := %s.\n" % B(bound_first)
+    out += "Definition session_reader_ignores_other_sources : bool := %s.\n" % B(ignores)
     out += "Definition quic_demux_never_waits_for_a_session : bool := %s.\n" % B(demux_never_waits)
     out += "Definition quic_session_queue_capacity : nat := %d.\n" % qcap
     return out
